@@ -19,6 +19,16 @@ CLAIMED = {
    technique="deterministic simulation of a map-reduce over the real E-step: seeded block assignment, per-block NumPy/Dask backend, shared-or-copied transfer, seeded merge schedule (+, reversed +, +=, reduce(iadd)); invariants after every merge step, independent longdouble reference model",
    text="Seeded exploration with per-step invariants (count conservation, responsibilities non-negative and summing to the count, operands of + untouched, += returns its left operand) and end-of-run oracles (split-and-add == whole-set accumulation == independent longdouble reference model; incompatible shapes refused without side effects). All 2^(n-1) compositions for n<=6 (thorough n<=8) are enumerated with three merge schedules.",
    note="Trusted: dst/refmodel.py (independent numpy.longdouble posterior moments from the visible parameters); tolerance 1e-9 relative to (t, t*scale, t*scale^2, |ll|)."),
+ "C17": dict(
+   design="5.5",
+   technique="deterministic simulation of an operation history on one GMMMachine (setters in any order, floors raised/lowered, EM steps on NumPy or on Dask under the simulated scheduler, restart events deepcopy/pickle/HDF5) with a fresh-machine reference model checked after every operation",
+   text="Seeded history exploration: 3..25 public operations per history incl. restart-from-durable-state events; after every operation likelihoods and statistics on a probe batch must equal those of a freshly built machine with the same visible parameters (1e-12) and variances must respect the current floors. Histories are minimised by dropping operations. Sampling, not proof.",
+   note="Trusted: the fresh machine built through public constructor+setters is the reference model; every generated change is >= 5 %, five orders of magnitude above the tolerance."),
+ "C18": dict(
+   design="5.6",
+   technique="deterministic simulation of restart-from-durable-state histories: seeded chains of HDF5 save (path/open file) -> from_hdf5/load (same or other shape) on real h5py files, with bit-identity, settings, continued-training, re-save and legacy-layout oracles after every restart",
+   text="Seeded history exploration over reachable machine states (ML/MAP, floors, switches, limits incl. None, pre-trained) and statistics values, chains of 1..4 save/restart steps; after every restart the reloaded object must be bit-identical, equal under ==, score identically, carry every recorded setting, train identically, re-save to an equivalent file, and agree with the legacy-layout image. No storage faults injected (the property promises nothing about crashes mid-save).",
+   note="Trusted: h5py; the harness's legacy writer (validated at setup against the repository's own legacy/current file pair)."),
 }
 
 NA = {
